@@ -215,3 +215,28 @@ def adaptive_sampler_points_stay_in_the_domain(S):
     S.ensure("n-rows-two-columns", ok and t.shape[0].size_term() == zint(n))
     if ok:
         S.forall("every-row-in-the-domain", out.f["_t"], lambda q: dom.in_pred([zreal(t.at([q[0], (c,)])) for c in range(2)], []))
+
+
+@scenario("C15", [PS + ".is_static", PS + ".is_adaptive", PS + ".make_static"], configs=["flags"])
+def static_and_adaptive_flags_identify_the_sampler_kind(S):
+    """is_static is true exactly for StaticSampler objects, is_adaptive exactly for the adaptive samplers; sums,
+    products and appended samplers of plain samplers are neither; conditions branch on these flags"""
+    import ast
+
+    n = S.int("n", 1)
+    inner = AbstractSampler(S, "inner", S.new(R2, "x"), n)
+    other = AbstractSampler(S, "other", S.new(R1, "t"), n)
+    st = S.method(inner.obj, "make_static")
+    dom = abstract_domain(S, "D", S.new(R2, "x"))
+    ats = S.new(ATS, dom.obj, S.real("ratio"), n_points=n)
+    ars = S.new(ARS, dom.obj, n_points=n)
+    flag = lambda o, nm: S.getattr(o, nm)
+    S.ensure("plain-sampler-is-neither", flag(inner.obj, "is_static") is False and flag(inner.obj, "is_adaptive") is False)
+    S.ensure("static-sampler-is-static-not-adaptive", flag(st, "is_static") is True and flag(st, "is_adaptive") is False)
+    S.ensure("adaptive-samplers-are-adaptive-not-static", flag(ats, "is_adaptive") is True and flag(ars, "is_adaptive") is True and flag(ats, "is_static") is False and flag(ars, "is_static") is False)
+    prod = S.I.binop(ast.Mult(), inner.obj, other.obj)
+    sm = S.I.binop(ast.Add(), inner.obj, inner.obj)
+    app = S.method(inner.obj, "append", other.obj)
+    for nm, o in (("product", prod), ("sum", sm), ("appended", app)):
+        S.ensure(f"{nm}-of-plain-samplers-is-neither", flag(o, "is_static") is False and flag(o, "is_adaptive") is False)
+    S.ensure("a-static-sampler-of-a-product-is-static", flag(S.method(prod, "make_static"), "is_static") is True)
